@@ -26,7 +26,6 @@ import os
 import re
 import subprocess
 import threading
-import time
 
 import slicer as S
 import engine as E
@@ -66,7 +65,7 @@ B_COMMON = ("T = u8 with concrete representative values (IdSet uses T only throu
 IDSET = [
     ("new", "IdSet::new / Default", (["op_new"], None, "empty history"), (["op_new"], None, "empty history")),
     ("insert", "IdSet::insert (new and duplicate values)", (["q_insert"], None, B_Q3 + ", checked after every insert"),
-     (["t_insert"], None, B_H4 + ", checked after every insert")),
+     (["t_insert", "t_insert_l4a", "t_insert_l4b", "t_insert_l4c"], None, B_H4 + " (4 harnesses), checked after every insert")),
     ("try_get_id", "IdSet::try_get_id", (["q_readonly"], "try_get_id", B_Q3), (["t_try_get_id"], None, B_H3)),
     ("get_id", "IdSet::get_id", (["q_readonly"], "get_id", B_Q3 + "; value present (documented panic otherwise)"),
      (["t_get_id"], None, B_H3 + "; value present (documented panic otherwise)")),
